@@ -24,7 +24,7 @@ type crashState struct {
 }
 
 func cloneModel(m *model) model {
-	return model{First: m.First, Ents: append([]ent(nil), m.Ents...)}
+	return model{First: m.First, Ents: append([]ent(nil), m.Ents...), Unknown: m.Unknown}
 }
 
 // HarnessCrash: E crash epochs of K operations each (crash point = any
@@ -203,6 +203,11 @@ func HarnessCrash() {
 		live++
 	}
 	vrt.Assert("C13.no-orphans-after-open", len(fs.Names()) == live)
+	for _, si := range meta.State.Segments {
+		if !si.SealTime.IsZero() && !m.empty() {
+			vrt.Assert("C13.no-segment-wholly-inside-the-deleted-range-is-kept", si.MaxIndex >= m.first() && si.MinIndex <= m.last())
+		}
+	}
 	// C13: creating a segment never collided with an existing file, in any epoch
 	vrt.Assert("C13.create-never-collides", collisions+fs.Collisions == 0)
 
@@ -251,9 +256,17 @@ func resolve(e *env, cs *crashState) *model {
 	vrt.Assert("C01.first-last-ok", err1 == nil && err2 == nil)
 	isPre := first == cs.pre.first() && last == cs.pre.last()
 	isPost := first == cs.post.first() && last == cs.post.last()
-	vrt.Assert("C01-C02-C04.state-is-pre-or-post", isPre || isPost)
+	vrt.Check("C01-C02-C04.state-is-pre-or-post", isPre || isPost)
 	if !(isPre || isPost) {
-		return nil
+		// neither admissible state (reported above). Keep going with what the WAL says it
+		// holds, contents unknown, so that the usability assertions (C03) still see this path.
+		n := 0
+		if last >= first && first > 0 {
+			n = int(vrt.Concrete("observed.len", last-first+1))
+		}
+		m := model{First: first, Ents: make([]ent, n), Unknown: true}
+		cs.pre, cs.post, cs.inflight = cloneModel(&m), cloneModel(&m), false
+		return &m
 	}
 	var m model
 	if isPre {
